@@ -269,6 +269,22 @@ func GenWorld(r *Run, o GenOpts) *World {
 		ext = ".par"
 	}
 	w.Index = filepath.Join(w.Dir, w.Base+ext)
+	if t.Bool(1, 2, "shuffled-listings") {
+		// directory listings come back in an order chosen by the tape (the
+		// fileIO interface promises none); sorted otherwise, like Glob
+		w.Disk.Order = func(n int) []int {
+			p := make([]int, n)
+			for i := range p {
+				p[i] = i
+			}
+			for i := n - 1; i > 0; i-- {
+				j := t.Draw(i+1, "listing-order")
+				p[i], p[j] = p[j], p[i]
+			}
+			return p
+		}
+		r.Probe("shuffled-directory-listing")
+	}
 
 	maxFiles := o.MaxFiles
 	if maxFiles <= 0 {
